@@ -136,8 +136,16 @@ class PdoBase(Mapping):
 
     def stop(self):
         """Stop all running tasks."""
+        errors = []
         for pdo_map in self.map.values():
-            pdo_map.stop()
+            # A stop refused by the interface must not keep the other
+            # maps transmitting
+            try:
+                pdo_map.stop()
+            except Exception as exc:
+                errors.append(exc)
+        if errors:
+            raise errors[0]
 
 
 class PdoMaps(Mapping):
